@@ -344,7 +344,9 @@ fn small(rep: &Report, tier: Tier) {
         for (li, &lk) in LKS.iter().enumerate() {
             let fids: Vec<u8> = if p == 5 { (0..=255).collect() } else { vec![[0u8, 1, 255][(p + li) % 3]] };
             for fid in fids {
-                for storage in [p, p + 5] {
+                // storages whose length does not fit 16 bits (few cells: every state of the graph carries the storage contents)
+                let storages: Vec<usize> = if (p == 1 || p == 6) && li < 3 && fid <= 2 { vec![p, p + 5, 65536, 65535 + p] } else { vec![p, p + 5] };
+                for storage in storages {
                     // receiver prior states: all three for one fragment id per cell, fresh only for the id sweep
                     let rxps: Vec<RxPrior> = if (p == 5 && fid > 2) || matches!(lk, Lk::AfterSameThenExt(..) | Lk::AfterSameAtMax(_)) { vec![RxPrior::Fresh] } else { RX_PRIORS.to_vec() };
                     for rx_prior in rxps {
